@@ -24,6 +24,10 @@
 //   edit2      after adding a stateful actuator on the new joint, mj_recompile keeps the state (new act = 0, new ctrl = 0)
 //   undo       after deleting the added body again (mjs_delete: the actuator goes with it), mj_recompile keeps the state
 //              of everything that is left
+//   toggle     after edits that change the SET of state-carrying elements (jointless world children become / stop being
+//              mocap, a new mocap body, plain actuators gain / lose their activation; choices seeded by the case seed,
+//              reported as `tog=M+a,M-b,Mnewc,A+d,A-e` on the ok line) mj_recompile keeps the state of every kept
+//              element by identity and gives new state its default (mocap pose = body_pos / body_quat, act = 0)
 // Models are compared bitwise: every array of MJMODEL_POINTERS (element size × count), every size of MJMODEL_SIZES,
 // the opt / vis / stat structs, and the byte stream written by mj_saveModel.
 // Output, one line per case: `ok nmesh=.. ntex=.. nq=.. nv=.. nu=.. pooltasks=..`, or `DIFF <check>:<field> ...`,
@@ -114,6 +118,7 @@ void on_engine_error(const char* msg) {
   std::exit(1);
 }
 bool simerror = false;
+char togglenote[96] = "";   // what the `toggle` stage of the case changed (reported on the ok line)
 size_t diffs_at_simerror = 0;
 // steps the simulation; after an engine error the later calls do nothing and the differences noted from then on are dropped
 void steps(const mjModel* m, mjData* d, int n) {
@@ -307,6 +312,7 @@ void run_case(int ntex, unsigned seed, int nstep, bool extras) {
   char err[1000];
   diffs.clear();
   simerror = false;
+  togglenote[0] = 0;
   mjSpec* s = mjb_build(stdin, err, sizeof err);
   if (s) add_textures(s, ntex, seed);
   else {
@@ -457,10 +463,111 @@ void run_case(int ntex, unsigned seed, int nstep, bool extras) {
           }
         }
       }
+
+      // toggle: edits that change the SET of state-carrying elements without adding / removing joints: bodies become / stop
+      // being mocap, a new mocap body appears, actuators gain / lose their activation.  By identity (body / actuator ids are
+      // unchanged, a new world child is last): kept elements keep their state, new state gets the mj_resetData default
+      // (mocap pose = body_pos / body_quat of the new model, act = 0); time, qpos, qvel, ctrl are untouched.
+      if (mr && d && diffs.empty() && !simerror) {
+        for (int i = 0; i < 3 * mr->nmocap; i++) d->mocap_pos[i] += 0.05 + 0.1 * unit(st);
+        for (int i = 0; i < mr->na; i++) d->act[i] += 0.01 + 0.02 * unit(st);
+        for (int i = 0; i < mr->nu; i++) d->ctrl[i] = 0.3 * unit(st) - 0.15;
+        // first a jointless, non-mocap world child (compiled once as such, so that it has a mocap id of -1 to go stale)
+        {
+          State b0 = grab(mr, d);
+          mjsBody* sb = mjs_addBody(mjs_findBody(s, "world"), nullptr);
+          mjs_setName(sb->element, "c33_added_static");
+          sb->pos[0] = 2.5; sb->pos[1] = -1.25; sb->pos[2] = 1.5;
+          sb->quat[0] = 0.5; sb->quat[1] = 0.5; sb->quat[2] = -0.5; sb->quat[3] = 0.5;
+          mjsGeom* sg = mjs_addGeom(sb, nullptr);
+          sg->type = mjGEOM_SPHERE; sg->size[0] = 0.03; sg->contype = 0; sg->conaffinity = 0;
+          rc = mj_recompile(s, nullptr, mr, d);
+          if (rc != 0) { note("toggle", "static-body-returned-nonzero"); mr = nullptr; d = nullptr; }
+          else check_state("toggle-static-body", b0, mr, d, true);
+        }
+      }
+      if (mr && d && diffs.empty() && !simerror) {
+        State b5 = grab(mr, d);
+        int nbody0 = mr->nbody, nu5 = mr->nu;
+        std::vector<int> mid0(mr->body_mocapid, mr->body_mocapid + mr->nbody);
+        std::vector<int> aadr0(mr->actuator_actadr, mr->actuator_actadr + mr->nu);
+        std::vector<int> anum0(mr->actuator_actnum, mr->actuator_actnum + mr->nu);
+        mjsBody* world = mjs_findBody(s, "world");
+        int mplus = 0, mminus = 0, aplus = 0, aminus = 0, mnew = 0;
+        for (mjsElement* el = mjs_firstElement(s, mjOBJ_BODY); el; el = mjs_nextElement(s, el)) {
+          mjsBody* b = mjs_asBody(el);
+          if (!b || b == world || mjs_getParent(el) != world) continue;
+          if (mjs_firstChild(b, mjOBJ_JOINT, 0)) continue;               // a mocap body is a fixed child of the world
+          unsigned k = lcg(st) % 3;
+          if (b->mocap && k == 0) { b->mocap = 0; mminus++; }
+          else if (!b->mocap && k != 0) { b->mocap = 1; mplus++; }
+        }
+        if (mplus == 0 || lcg(st) % 2) {
+          mjsBody* mb = mjs_addBody(world, nullptr);
+          mjs_setName(mb->element, "c33_added_mocap");
+          mb->pos[0] = -1.5; mb->pos[1] = 2.25; mb->pos[2] = 0.75;
+          mb->quat[0] = 0.5; mb->quat[1] = -0.5; mb->quat[2] = 0.5; mb->quat[3] = 0.5;
+          mb->mocap = 1;
+          mjsGeom* mg = mjs_addGeom(mb, nullptr);
+          mg->type = mjGEOM_SPHERE; mg->size[0] = 0.04; mg->contype = 0; mg->conaffinity = 0;
+          mnew = 1;
+        }
+        // an actuator that loses its activation while the spec has a keyframe makes mj_compile and mj_recompile alike fail
+        // ("keyframe: invalid act size": the stored key act is not shrunk) - not generated, reported to the coordinator
+        bool haskey = mjs_firstElement(s, mjOBJ_KEY) != nullptr;
+        for (mjsElement* el = mjs_firstElement(s, mjOBJ_ACTUATOR); el; el = mjs_nextElement(s, el)) {
+          mjsActuator* a = mjs_asActuator(el);
+          if (!a || a->actdim != -1 || a->plugin.active) continue;
+          if (a->gaintype != mjGAIN_FIXED && a->gaintype != mjGAIN_AFFINE) continue;
+          if (a->biastype != mjBIAS_NONE && a->biastype != mjBIAS_AFFINE) continue;
+          unsigned k = lcg(st) % 2;
+          if (a->dyntype == mjDYN_NONE && k) { a->dyntype = mjDYN_INTEGRATOR; aplus++; }
+          else if ((a->dyntype == mjDYN_INTEGRATOR || a->dyntype == mjDYN_FILTER) && k && !haskey && a->actlimited != mjLIMITED_TRUE &&
+                   a->actrange[0] == 0 && a->actrange[1] == 0) { a->dyntype = mjDYN_NONE; aminus++; }
+        }
+        std::snprintf(togglenote, sizeof togglenote, " tog=M+%d,M-%d,Mnew%d,A+%d,A-%d", mplus, mminus, mnew, aplus, aminus);
+        rc = mj_recompile(s, nullptr, mr, d);
+        if (rc != 0) {
+          // the edited spec may be invalid (not a C33 matter) - but then a plain mj_compile of it fails as well
+          mr = nullptr; d = nullptr;
+          mjModel* mc = mj_compile(s, nullptr);
+          if (mc) { note("toggle", "recompile-failed-compile-succeeds"); mj_deleteModel(mc); }
+          std::strncat(togglenote, ",invalid", sizeof togglenote - std::strlen(togglenote) - 1);
+        }
+        else if (mr->nbody != nbody0 + mnew || mr->nu != nu5 || mr->nq != (int)b5.qpos.size() || mr->nv != (int)b5.qvel.size()) note("toggle", "sizes");
+        else {
+          if (d->time != b5.time) note("toggle", "time");
+          if (!same_prefix(b5.qpos, d->qpos, (size_t)mr->nq)) note("toggle", "qpos");
+          if (!same_prefix(b5.qvel, d->qvel, (size_t)mr->nv)) note("toggle", "qvel");
+          if (!same_prefix(b5.ctrl, d->ctrl, (size_t)mr->nu)) note("toggle", "ctrl");
+          int nm = 0;
+          for (int i = 0; i < mr->nbody; i++) {
+            int k1 = mr->body_mocapid[i], k0 = i < nbody0 ? mid0[i] : -1;
+            if (k1 < 0) continue;
+            nm++;
+            const double* ep = k0 >= 0 ? b5.mpos.data() + 3 * k0 : mr->body_pos + 3 * i;
+            const double* eq = k0 >= 0 ? b5.mquat.data() + 4 * k0 : mr->body_quat + 4 * i;
+            if (std::memcmp(d->mocap_pos + 3 * k1, ep, 3 * sizeof(double))) note("toggle", k0 >= 0 ? "mocap_pos-kept-body" : "mocap_pos-new-mocap-body");
+            if (std::memcmp(d->mocap_quat + 4 * k1, eq, 4 * sizeof(double))) note("toggle", k0 >= 0 ? "mocap_quat-kept-body" : "mocap_quat-new-mocap-body");
+          }
+          if (nm != mr->nmocap) note("toggle", "nmocap");
+          int na = 0;
+          for (int i = 0; i < mr->nu; i++) {
+            int n1 = mr->actuator_actnum[i], a1 = mr->actuator_actadr[i];
+            na += n1;
+            for (int j = 0; j < n1; j++) {
+              double e = (anum0[i] == n1) ? b5.act[(size_t)(aadr0[i] + j)] : 0.0;
+              if (std::memcmp(&d->act[a1 + j], &e, sizeof e)) note("toggle", anum0[i] == n1 ? "act-kept-actuator" : "act-new-activation");
+            }
+          }
+          if (na != mr->na) note("toggle", "na");
+        }
+      }
     }
   }
   if (simerror && diffs.size() > diffs_at_simerror) diffs.resize(diffs_at_simerror);
   if (diffs.empty()) std::printf("ok nmesh=%d ntex=%d nq=%d nv=%d nu=%d pooltasks=%d%s", (int)m1->nmesh, (int)m1->ntex, (int)m1->nq, (int)m1->nv, (int)m1->nu, pooltasks, simerror ? " simerror=1" : "");
+  if (diffs.empty()) std::printf("%s", togglenote);
   else {
     std::printf("DIFF");
     for (auto& x : diffs) std::printf(" %s", x.c_str());
